@@ -76,15 +76,16 @@ def discharge(item, timeout_ms, second_opinion=False):
     if Z.is_true(item.goal):
         item.result, item.by, item.seconds = 'discharged', 'simplifier', 0.0
         return item
-    asserts = Z.AXIOMS.terms() + list(item.assertions) + [Z.Not(item.goal)]
+    body = list(item.assertions) + [Z.Not(item.goal)]
+    asserts = Z.relevant_axioms(body) + body
     r, m, dt = Z.check(asserts, timeout_ms, want_model=True)
     item.seconds = dt
     item.by = 'z3-%s' % z3.get_version_string()
     if r == 'unknown':
         # cone-of-influence slice: only what shares symbols with the negated goal
         neg = Z.Not(item.goal)
-        sl = Z.cone(Z.AXIOMS.terms() + list(item.assertions), [neg])
-        if len(sl) < len(asserts) - 1:
+        sl = Z.cone(Z.AXIOMS.terms() + list(item.assertions), [neg]) if Z.symbols(neg) else []
+        if sl and len(sl) < len(asserts) - 1:
             r2, m2, dt2 = Z.check(sl + [neg], timeout_ms, want_model=True)
             item.seconds += dt2
             if r2 != 'unknown':
@@ -150,8 +151,8 @@ def discharge_all(items, timeout_ms, second_opinion=False):
         if len(run) >= 3:
             goals = [x.goal for x in run if not Z.is_true(x.goal)]
             if goals:
-                r, m, dt = Z.check(Z.AXIOMS.terms() + list(run[0].assertions) + [Z.Not(Z.And(*goals))],
-                                   timeout_ms, want_model=False)
+                body = list(run[0].assertions) + [Z.Not(Z.And(*goals))]
+                r, m, dt = Z.check(Z.relevant_axioms(body) + body, timeout_ms, want_model=False)
             else:
                 r, dt = 'unsat', 0.0
             if r == 'unsat':
